@@ -266,8 +266,9 @@ class Master:
     with the command (FIFO of write words, head presented with valid), always accepts read data."""
     def __init__(self, rnd, aw, dw, pattern):
         self.rnd = rnd; self.aw = aw; self.dw = dw; self.pattern = pattern
-        self.cmd = None              # (we, addr)
+        self.cmd = None              # (we, addr, data, mask)
         self.wq = []                 # write words not yet taken: (data, we)
+        self.spurious_wdata_strobes = 0
         self.mode()
 
     def mode(self):
@@ -282,11 +283,13 @@ class Master:
         r = self.rnd
         ev = None
         if self.cmd is not None and cmd_ready:
-            we, addr = self.cmd
-            ev = (we, addr) + (self.wq[-1] if we else (0, 0))
+            ev = self.cmd
             self.cmd = None
-        if wdata_ready and self.wq:
-            self.wq.pop(0)
+        if wdata_ready:
+            if self.wq:
+                self.wq.pop(0)
+            else:
+                self.spurious_wdata_strobes += 1     # a write-data strobe although this port has no write outstanding
         self.len -= 1
         if self.len <= 0:
             self.mode()
@@ -299,11 +302,13 @@ class Master:
                 self.seq = (self.seq + 1) % (1 << self.aw); addr = self.seq
             else:
                 addr = r.getrandbits(self.aw)
-            self.cmd = (we, addr)
+            data, mask = 0, 0
             if we:
                 nb = self.dw // 8
                 mask = r.choice([(1 << nb) - 1, (1 << nb) - 1, r.getrandbits(nb), 1 << r.randrange(nb)])
-                self.wq.append((r.getrandbits(self.dw), mask))
+                data = r.getrandbits(self.dw)
+                self.wq.append((data, mask))
+            self.cmd = (we, addr, data, mask)
         drive = dict(cmd_valid=int(self.cmd is not None), cmd_we=self.cmd[0] if self.cmd else 0, cmd_addr=self.cmd[1] if self.cmd else 0,
                      wdata_valid=int(bool(self.wq)), wdata=self.wq[0][0] if self.wq else 0, wdata_we=self.wq[0][1] if self.wq else 0)
         return drive, ev
@@ -362,7 +367,8 @@ def cosim_core(cfg, seed, ncycles):
                     else "dfi.p%d.%s" % ((k - 4 * nm) // 8, ["cs_n", "bank", "address", "cas_n", "ras_n", "we_n", "rddata_en", "wrdata_en"][(k - 4 * nm) % 8]))
             mismatch = dict(cycle=i, signal=what, impl=a[k], model=b[k], inputs=lines[max(2, i - 3):i + 3])
             break
-    return dict(mismatch=mismatch, lines=lines, obs=obs[:n], events=events[:n], offered=offered, cycles=n, nm=nm, dw=dw, aw=aw, dut=dut)
+    return dict(mismatch=mismatch, lines=lines, obs=obs[:n], events=events[:n], offered=offered, cycles=n, nm=nm, dw=dw, aw=aw, dut=dut,
+                spurious=[m.spurious_wdata_strobes for m in masters])
 
 
 def run_port_monitor(nm, dw, events):
